@@ -23,7 +23,7 @@ BOUNDED = {
     "C14": "dtype matrix",
     "C15": "end-to-end composition for masks and windows (mask -> windows -> ragged run-length array -> ravel); slices are composed by a proved lemma",
     "C16": "float `sum`, numpy's own `histogram` of weighted values (`mean`, `histogram` are proved as dispatch over the callee contracts)",
-    "C17": "constructors (`from_array`, `from_ragged_array`, `from_intervals`), column ranges, column sums / any (`_col_sum`, `_col_any`), `concatenate`",
+    "C17": "constructors (`from_array`, `from_ragged_array`, `from_intervals`), column ranges, column sums / any (`_col_sum`, `_col_any`), `concatenate` of more than 3 operands",
     "C18": "cross-check only (number of fields / operands is unrolled 1..3, hence not claimed as proof)",
     "C19": "the C01-C09 stand-ins run under both widths and compared",
 }
